@@ -232,6 +232,23 @@ func (fr *frame) block(b *ssa.BasicBlock, st *state) {
 				ch := fr.val(x.Chan)
 				st.heap["G_sent"] = fmt.Sprintf("(store %s %s (+ (select %s %s) 1))", cur, ch, cur, ch)
 			}
+			// lastSent[ch]: the value most recently sent on ch (declared per element type by the contracts that use it)
+			if gt, ok := vc.w.db.Ghosts["lastSent"]; ok {
+				pk := fr.fn.Pkg
+				for p := fr.fn.Parent(); pk == nil && p != nil; p = p.Parent() {
+					pk = p.Pkg
+				}
+				tr := &trans{c: c, vars: map[string]tvar{}, cur: st, old: st, depth: 1}
+				if pk != nil {
+					tr.pkg = pk.Pkg.Path()
+				}
+				vt := tr.resolveType(gt)
+				c.heapSorts["G_lastSent"] = vt.sort
+				if vt.sort == fmt.Sprintf("(Array Ref %s)", c.sortOf(x.X.Type())) && vc.ensureKey("G_lastSent") {
+					cur := c.heapGet(st, "G_lastSent")
+					st.heap["G_lastSent"] = fmt.Sprintf("(store %s %s %s)", cur, fr.val(x.Chan), fr.val(x.X))
+				}
+			}
 		case *ssa.Select:
 			c.note("select abstracted: nondeterministic choice, received values unconstrained")
 			fr.havocVal(x, st)
